@@ -163,13 +163,15 @@ def lean_tuples(ts):
     return "[" + ", ".join(lean_ints(t) for t in ts) + "]"
 
 
-def gen():
+def front_end():
     cs = consts()
-    ir = {}
+    return {key: processor(rel, clsname, cs) for key, rel, clsname in PROCESSORS}
+
+
+def to_lean(ir):
     s = "-- GENERATED by harness/translators/wmiconfig.py from /repo/src/qib -- do not edit\nnamespace QibGen\n"
     for key, rel, clsname in PROCESSORS:
-        p = processor(rel, clsname, cs)
-        ir[key] = p
+        p = ir[key]
         s += f"\n/-- `{clsname}.configuration()` -/\n"
         s += f"def {key}BasisGates : List String := [" + ", ".join(json.dumps(b) for b in p["basis"]) + "]\n\n"
         s += f"def {key}Gates : List (String × List (List Int) × Nat) :=\n  [" + ",\n   ".join(
@@ -178,7 +180,12 @@ def gen():
         s += f"def {key}NQubits : Nat := {p['n_qubits']}\n\n"
         s += f"def {key}MaxShots : Nat := {p['max_shots']}\n"
     s += "\nend QibGen\n"
-    return s, ir
+    return s
+
+
+def gen():
+    ir = front_end()
+    return to_lean(ir), ir
 
 
 def validate(ir):
@@ -203,10 +210,12 @@ def validate(ir):
     return errs
 
 
+def reference_ir():
+    return front_end()
+
+
 def run():
-    s, ir = gen()
-    errs = validate(ir)
-    if errs:
-        raise TranslationError("front-end validation failed: " + "; ".join(errs))
-    write_if_changed(LEAN / "QibGen" / "WmiConfig.lean", s)
+    from translate import with_reference
+    ir = with_reference("wmiconfig", front_end, validate)
+    write_if_changed(LEAN / "QibGen" / "WmiConfig.lean", to_lean(ir))
     return ir
